@@ -77,6 +77,30 @@ void ExpressionBuilder::add_position(uint32_t position, uint32_t offset, uint32_
 
 void ExpressionBuilder::handle_error(const TypeException& ex) { document.add_error(position, ex.what()); }
 
+void ExpressionBuilder::parse_begin()
+{
+    fragmentsMark = fragments.size();
+    typeFragmentsMark = typeFragments.size();
+    framesMark = frames.size();
+}
+
+void ExpressionBuilder::parse_end(bool failed)
+{
+    // Every scope opened while parsing a piece of text is closed again by the
+    // time it has been parsed - unless an error (even one the grammar recovered
+    // from) has skipped the callback that closes it, e.g. in a quantifier body.
+    while (frames.size() > framesMark)
+        frames.pop();
+    if (!failed)
+        return;
+    // A parse that gave up half way also leaves operands and types behind that
+    // the callbacks of the following text would mistake for their own.
+    while (fragments.size() > fragmentsMark)
+        fragments.pop();
+    while (typeFragments.size() > typeFragmentsMark)
+        typeFragments.pop();
+}
+
 void ExpressionBuilder::handle_warning(const TypeException& ex) { document.add_warning(position, ex.what()); }
 
 void ExpressionBuilder::push_frame(frame_t frame) { frames.push(std::move(frame)); }
